@@ -199,7 +199,7 @@ class PureDephasing: #(BasisManaged):
             if dtype == "Lorentzian" and self.dtype == "Gaussian":
                 self.data = numpy.sqrt(self.data)*factor
                 self.dtype = dtype
-            elif dtype == "Gaussian" and self.dtype == "Lorenzian":
+            elif dtype == "Gaussian" and self.dtype == "Lorentzian":
                 self.data = (self.data**2)/(factor**2)
                 self.dtype = dtype
                 
